@@ -75,6 +75,17 @@ fn main() {
             }
             println!("no violation on this replay");
         }
+        "exec-json" => {
+            let text = std::fs::read_to_string(&args[2]).expect("read");
+            let v: serde_json::Value = serde_json::from_str(&text).expect("json");
+            let scn: Scenario = serde_json::from_value(v["scenario"].clone()).expect("scenario");
+            let schedule: Vec<u16> = serde_json::from_value(v["schedule"].clone()).expect("schedule");
+            let scn = Arc::new(scn);
+            let (r, diverged) = explore::run_schedule(&scn, &schedule);
+            let ct = explore::canon(&r.trace, &r.raw_ids);
+            let steps: Vec<(usize, usize, bool)> = r.steps.iter().map(|s| (s.n, s.chosen, s.cont)).collect();
+            println!("{}", serde_json::json!({"steps": steps, "trace": ct, "diverged": diverged, "error": r.error, "points": r.points, "actions": r.actions}));
+        }
         "hash-replay" => {
             let text = std::fs::read_to_string(&args[2]).expect("read");
             let v: serde_json::Value = serde_json::from_str(&text).expect("json");
@@ -94,7 +105,7 @@ fn main() {
             let prop = arg(&args, "--prop").expect("--prop");
             let thorough = arg(&args, "--tier").as_deref() == Some("thorough");
             let p = props::all().into_iter().find(|p| p.id == prop).expect("unknown property");
-            let scns = (p.gen)(thorough);
+            let scns = (p.gen)(if thorough { p.thorough_level } else { p.quick_level });
             println!("{}", scns.len());
             if args.iter().any(|a| a == "--names") {
                 for s in &scns {
@@ -146,7 +157,7 @@ fn cmd_explore(args: &[String]) {
     let budget_s: f64 = arg(args, "--budget").map(|s| s.parse().unwrap()).unwrap_or(if thorough { 800.0 } else { 50.0 });
     let max_found: usize = arg(args, "--max-found").map(|s| s.parse().unwrap()).unwrap_or(3);
     let p = props::all().into_iter().find(|p| p.id == prop).expect("unknown property");
-    let mut scns = (p.gen)(thorough);
+    let mut scns = (p.gen)(if thorough { p.thorough_level } else { p.quick_level });
     if seed != 0 {
         for s in scns.iter_mut() {
             s.seed = s.seed.wrapping_add(seed);
@@ -248,7 +259,7 @@ fn cmd_diff(args: &[String]) {
     let out = arg(args, "--out");
     let only = arg(args, "--only");
     let budget_s: f64 = arg(args, "--budget").map(|s| s.parse().unwrap()).unwrap_or(if thorough { 800.0 } else { 50.0 });
-    let groups = props::gen_c16(thorough);
+    let groups = props::gen_c16(if thorough { 1 } else { 0 });
     let lim = explore::Limits { bound: arg(args, "--bound").map(|b| if b == "inf" { None } else { Some(b.parse().unwrap()) }).unwrap_or(None), max_execs: if thorough { 400_000 } else { 50_000 } };
     let t0 = std::time::Instant::now();
     let mut stats = explore::Stats::default();
@@ -357,7 +368,7 @@ fn cmd_dump(args: &[String]) {
     let p = props::all().into_iter().find(|p| p.id == prop).expect("unknown property");
     let lim = explore::Limits { bound: p.bound_quick, max_execs: p.max_execs_quick };
     let mut stats = explore::Stats::default();
-    for mut s in (p.gen)(false) {
+    for mut s in (p.gen)(p.quick_level) {
         if s.name != only {
             continue;
         }
